@@ -62,7 +62,7 @@ func (e Element) Type() (ElemType, error) {
 	case e.Group == "node" && et == NodeElement:
 		return NodeElement, nil
 	case e.Group == "edge" && et == EdgeElement:
-		return NodeElement, nil
+		return EdgeElement, nil
 	default:
 		return InvalidElement, errors.New("cytoscapejs: invalid element: mismatched group")
 	}
